@@ -47,7 +47,7 @@ func c07(c *Ctx) {
 			c.R.Undecided(g.rule, pkg+".(*"+g.typ+").makeCall", "anchor resolves", "fn/key parameters not found")
 			continue
 		}
-		ps := c.paths(g.rule, f, px.Config{MayPanic: userPanics})
+		ps := c.paths(g.rule, f, px.Config{MayPanic: userPanics, MayGoexit: func(ci *px.CallInfo) bool { return ci.IsDyn() && ci.FnSym != nil && isParam(ci.FnSym, fnP) }})
 		isFn := px.DynWhere(func(s *px.Sym) bool { return isParam(s, fnP) })
 		del := func(e *px.Event) bool {
 			return e.Kind == px.EvCall && e.Call.Builtin == "delete" && px.IsFieldLoad(e.Call.Args[0], g.mapField, nil)
@@ -72,6 +72,25 @@ func c07(c *Ctx) {
 			}
 			if fs[0].PanicsHere && p.Exit != px.ExitPanic {
 				return false, "fn's panic is swallowed"
+			}
+			// the joiners read the call object after Done: when fn never returned (it panicked or ended its goroutine) the
+			// object must carry a non-nil error by then — otherwise they receive (nil, nil), a success no execution produced
+			if g.typ == "flightGroup" && (fs[0].PanicsHere || fs[0].GoexitHere) {
+				ok := false
+				for _, e := range p.All(px.KindIs(px.EvStore)) {
+					if e.Seq >= dn[0].Seq || !px.FieldAddrIs(e.Addr, "err", nil) {
+						continue
+					}
+					v := e.Val.Strip(false)
+					// a non-nil error: established non-nil, a package-level sentinel, or a freshly made error
+					if p.Abs(v).K == px.NonNil || (v.Kind == px.KLoad && v.X != nil && v.X.Kind == px.KGlobal) ||
+						(v.Kind == px.KCall && v.Call != nil && nameIn(shortName(v.Call), []string{"errors.New", "fmt.Errorf"})) {
+						ok = true
+					}
+				}
+				if !ok {
+					return false, "fn did not return (panic / runtime.Goexit) and the waiters are released without an error in the call object: every caller that joined this flight receives (nil, nil) — a value and error that no execution produced (collection.Cache.Take reports a successful nil hit, ResourceManager.GetResource panics on the type assertion)"
+				}
 			}
 			return true, ""
 		})
@@ -227,6 +246,9 @@ func c07(c *Ctx) {
 				if b, fname, ok := e.Addr.FieldAddrOf(); ok && (fname == "val" || fname == "err") {
 					if !isParam(b, f.Params[1]) {
 						return false, "result stored into another call object"
+					}
+					if e.Seq < fn.Seq {
+						continue // what the object holds while fn runs (e.g. an "aborted" marker that a returning fn overwrites)
 					}
 					idx := 0
 					if fname == "err" {
